@@ -125,21 +125,31 @@ impl RawF {
     }
 }
 /// binary64-level products: the three kernels on (A, x, y, a, b), compared bit for bit
-pub fn fgemv_case(a: &RawF, x_n: &[f64], y_m: &[f64], x_m: &[f64], y_n: &[f64], ca: f64, cb: f64) -> String {
+/// `general = false`: inputs whose partial sums are all exactly representable, so that every
+/// summation order / association gives the same bits: the bitwise comparison (`c_*_F`) is
+/// binding.  `general = true`: arbitrary finite floats: `c_*_G` is binding only up to
+/// 2^-45 relative to the sum of absolute products (exact dyadic evaluation of the dense
+/// meaning), bitwise identity with the transcribed order is reported as information.
+pub fn fgemv_case(a: &RawF, x_n: &[f64], y_m: &[f64], x_m: &[f64], y_n: &[f64], ca: f64, cb: f64, general: bool) -> String {
+    let sfx = if general { "G" } else { "F" };
     let af = a.csc();
     let mut parts = vec![];
     let r = guarded(|| { let mut yy = y_m.to_vec(); gemv_n(&af, &mut yy, x_n, ca, cb); yy });
-    parts.push(match r { Some(yy) => format!("c_gemv_F A {} {} {} {} {}", cfllist(x_n), cfllist(y_m), cfl(ca), cfl(cb), cfllist(&yy)), None => "1%N".into() });
+    parts.push(match r { Some(yy) => format!("c_gemv_{} A {} {} {} {} {}", sfx, cfllist(x_n), cfllist(y_m), cfl(ca), cfl(cb), cfllist(&yy)), None => "1%N".into() });
     let r = guarded(|| { let mut yy = y_n.to_vec(); gemv_t(&af, &mut yy, x_m, ca, cb); yy });
-    parts.push(match r { Some(yy) => format!("c_gemv_T_F A {} {} {} {} {}", cfllist(x_m), cfllist(y_n), cfl(ca), cfl(cb), cfllist(&yy)), None => "1%N".into() });
-    if a.is_triu_square() {
+    parts.push(match r { Some(yy) => format!("c_gemv_T_{} A {} {} {} {} {}", sfx, cfllist(x_m), cfllist(y_n), cfl(ca), cfl(cb), cfllist(&yy)), None => "1%N".into() });
+    // symv has no a == 0 early return: with non-finite values in x / A (generated only for
+    // a == 0) its result is NaN today but a harmless early return would change that, so the
+    // case is not part of the tie
+    let nonfinite_in = x_n.iter().chain(a.nzval.iter()).any(|v| !v.is_finite());
+    if a.is_triu_square() && !nonfinite_in {
         let r = guarded(|| { let mut yy = y_n.to_vec(); symv_u(&af, &mut yy, x_n, ca, cb); yy });
-        parts.push(match r { Some(yy) => format!("c_symv_F A {} {} {} {} {}", cfllist(x_n), cfllist(y_n), cfl(ca), cfl(cb), cfllist(&yy)), None => "1%N".into() });
+        parts.push(match r { Some(yy) => format!("c_symv_{} A {} {} {} {} {}", sfx, cfllist(x_n), cfllist(y_n), cfl(ca), cfl(cb), cfllist(&yy)), None => "1%N".into() });
     }
     format!("(let A := {} in maxl [{}])", a.coq(), parts.join("; "))
 }
-fn fgemv_json(a: &RawF, x_n: &[f64], y_m: &[f64], x_m: &[f64], y_n: &[f64], ca: f64, cb: f64) -> Value {
-    json!({"A": a.json(), "x_n": fbits_vec(x_n), "y_m": fbits_vec(y_m), "x_m": fbits_vec(x_m), "y_n": fbits_vec(y_n), "a": fbits(ca), "b": fbits(cb)})
+fn fgemv_json(a: &RawF, x_n: &[f64], y_m: &[f64], x_m: &[f64], y_n: &[f64], ca: f64, cb: f64, general: bool) -> Value {
+    json!({"A": a.json(), "x_n": fbits_vec(x_n), "y_m": fbits_vec(y_m), "x_m": fbits_vec(x_m), "y_n": fbits_vec(y_n), "a": fbits(ca), "b": fbits(cb), "general": general})
 }
 fn dims_ok(a: &RawI) -> bool {
     a.rowval.len() == a.nzval.len() && a.colptr.len() == a.n + 1 && a.colptr[0] == 0
@@ -703,15 +713,24 @@ pub fn generate(sink: &mut CaseSink, seed: u64, thorough: bool) -> Stats {
             bump("raw_struct_special");
         }
     }
-    // 5c. binary64-level products: every (a, b) class pair incl. -0, on empty matrices, empty
-    //     columns, a single column, upper-triangular squares (symv), stored -0 entries; y is
-    //     finite garbage (huge values, -0) or non-finite garbage (inf, NaN); for a = 0 the
-    //     vector x and the matrix may hold non-finite values too (they are never read)
+    // 5c. binary64-level products, every (a, b) class pair incl. -0, on empty matrices, empty
+    //     columns, a single column, upper-triangular squares (symv), stored -0 entries.
+    //     kind 0/1 ("exact", binding bitwise): all values are dyadics with <= 4 significant bits
+    //     and exponents in [-3, 12], matrices <= 5x5: every product a*v*x and every partial sum,
+    //     in ANY order or association, is a multiple of 2^-9 below 2^17, hence exactly
+    //     representable, so the bits do not depend on the summation order; y is finite garbage
+    //     (incl. -0) or non-finite garbage (inf, NaN: propagation does not depend on the order
+    //     either); for a = 0 the vector x and the matrix may hold non-finite values too (the
+    //     documented contract: never read).
+    //     kind 2 ("general"): non-dyadic moderate values, rounding happens: binding only up to
+    //     2^-45 * sum |products| against the exact dense meaning, bitwise = information.
     {
         let coefs: [f64; 8] = [0.0, -0.0, 1.0, -1.0, 2.0, -0.5, 3.0, 0.25];
-        let vals: [f64; 9] = [0.5, -1.0, 1.5, 2.0, -0.0, 0.0, 3.25, -2.5, 1e300];
-        let fin: [f64; 8] = [1e300, -7.25, -0.0, 0.0, 3.0, -1e-300, 123456.789, -2.0];
+        let vals: [f64; 9] = [0.5, -1.0, 1.5, 2.0, -0.0, 0.0, 3.25, -2.5, 4.0];
+        let fin: [f64; 8] = [1024.0, -7.25, -0.0, 0.0, 3.0, -4096.0, 0.125, -2.0];
         let nonfin: [f64; 5] = [f64::INFINITY, f64::NEG_INFINITY, f64::NAN, -0.0, 5.0];
+        let gcoefs: [f64; 8] = [0.0, -0.0, 1.0, -1.0, 0.3, -1.7, 1e-3, 123.456];
+        let gvals: [f64; 9] = [0.1, -1.0 / 3.0, 1e-3, 7.7, 12345.678, -2.5e-4, 1e5, -0.7, 1.0];
         let shapes: [(usize, usize, usize, bool); 12] = [
             (0, 0, 0, false), (0, 3, 0, false), (3, 0, 0, false), (1, 1, 100, true), (3, 1, 70, false), (1, 4, 60, false),
             (3, 3, 0, true), (3, 3, 60, true), (4, 4, 35, true), (4, 3, 50, false), (2, 5, 40, false), (5, 5, 50, false),
@@ -719,33 +738,37 @@ pub fn generate(sink: &mut CaseSink, seed: u64, thorough: bool) -> Stats {
         let reps = if thorough { 6 } else { 1 };
         for _ in 0..reps {
             for &(m, n, dens, triu) in shapes.iter() {
-                for (ia, &ca) in coefs.iter().enumerate() {
-                    for (ib, &cb) in coefs.iter().enumerate() {
+                for ia in 0..8 {
+                    for ib in 0..8 {
                         // all 5 x 5 class pairs; the extra general values only against each other
                         if (ia >= 5 || ib >= 5) && (ia + ib) % 3 != 0 { continue; }
-                        for kind in 0..2 {
+                        for kind in 0..3 {
+                            let general = kind == 2;
+                            let (ca, cb) = if general { (gcoefs[ia], gcoefs[ib]) } else { (coefs[ia], coefs[ib]) };
+                            let vs: &[f64] = if general { &gvals } else { &vals };
                             let mut colptr = vec![0];
                             let (mut rv, mut nz) = (vec![], vec![]);
                             for j in 0..n {
                                 for i in 0..m {
-                                    if (!triu || i <= j) && rng.chance(dens, 100) { rv.push(i); nz.push(*rng.pick(&vals)); }
+                                    if (!triu || i <= j) && rng.chance(dens, 100) { rv.push(i); nz.push(*rng.pick(vs)); }
                                 }
                                 colptr.push(rv.len());
                             }
-                            let garbage: &[f64] = if kind == 0 { &fin } else { &nonfin };
+                            let garbage: &[f64] = match kind { 0 => &fin, 1 => &nonfin, _ => &gvals };
                             let y_m: Vec<f64> = (0..m).map(|_| *rng.pick(garbage)).collect();
                             let y_n: Vec<f64> = (0..n).map(|_| *rng.pick(garbage)).collect();
-                            let mut x_n: Vec<f64> = (0..n).map(|_| *rng.pick(&vals)).collect();
-                            let mut x_m: Vec<f64> = (0..m).map(|_| *rng.pick(&vals)).collect();
+                            let mut x_n: Vec<f64> = (0..n).map(|_| *rng.pick(vs)).collect();
+                            let mut x_m: Vec<f64> = (0..m).map(|_| *rng.pick(vs)).collect();
                             if ca == 0.0 && kind == 1 {
                                 // never read when a = 0
                                 for v in x_n.iter_mut().chain(x_m.iter_mut()) { if rng.chance(1, 2) { *v = *rng.pick(&nonfin); } }
                                 for v in nz.iter_mut() { if rng.chance(1, 3) { *v = f64::NAN; } }
                             }
                             let a = RawF { m, n, colptr, rowval: rv, nzval: nz };
-                            let coq = fgemv_case(&a, &x_n, &y_m, &x_m, &y_n, ca, cb);
-                            sink.case("fgemv", fgemv_json(&a, &x_n, &y_m, &x_m, &y_n, ca, cb), coq, &[if kind == 0 { "finite-garbage" } else { "nonfinite-garbage" }]);
-                            bump("fgemv");
+                            let coq = fgemv_case(&a, &x_n, &y_m, &x_m, &y_n, ca, cb, general);
+                            let tag = ["exact-finite-garbage", "exact-nonfinite-garbage", "general-tolerance"][kind];
+                            sink.case("fgemv", fgemv_json(&a, &x_n, &y_m, &x_m, &y_n, ca, cb, general), coq, &[tag]);
+                            bump(&format!("fgemv_{}", tag));
                         }
                     }
                 }
@@ -773,7 +796,7 @@ pub fn replay(sink: &mut CaseSink, case: &Value) {
             let bl: Vec<RawI> = inp["blocks"].as_array().unwrap().iter().map(RawI::from_json).collect();
             concat_case(&bl, inp["salt"].as_u64().unwrap() as usize)
         }
-        "fgemv" => fgemv_case(&RawF::from_json(&inp["A"]), &unbits_vec(&inp["x_n"]), &unbits_vec(&inp["y_m"]), &unbits_vec(&inp["x_m"]), &unbits_vec(&inp["y_n"]), unbits(&inp["a"]), unbits(&inp["b"])),
+        "fgemv" => fgemv_case(&RawF::from_json(&inp["A"]), &unbits_vec(&inp["x_n"]), &unbits_vec(&inp["y_m"]), &unbits_vec(&inp["x_m"]), &unbits_vec(&inp["y_n"]), unbits(&inp["a"]), unbits(&inp["b"]), inp["general"].as_bool().unwrap_or(false)),
         "hvgrid" => {
             let rows: Vec<Vec<RawI>> = inp["rows"].as_array().unwrap().iter().map(|r| r.as_array().unwrap().iter().map(RawI::from_json).collect()).collect();
             grid_case(&rows)
